@@ -1015,6 +1015,69 @@ fn sc_c18(seed: u64, thorough: bool) -> Vec<Scenario> {
     }]
 }
 
+/// Scale: what only shows after thousands of events of one kind - a burst of SYNs from one source
+/// within a fraction of a second ("whatever happened before"), and one keep-alive connection
+/// carrying more than a thousand requests.
+fn sc_scale(seed: u64, thorough: bool, which: &str) -> Vec<Scenario> {
+    let mut out = Vec::new();
+    let builds: Vec<Build> = if thorough { vec![Build::Release, Build::Debug] } else { vec![Build::Release] };
+    for (bi, build) in builds.into_iter().enumerate() {
+        let mut rng = Rng::new(derive(seed, "directed-scale", bi as u64));
+        let key = [rng.u64(), rng.u64()];
+        let v6 = rng.chance(1, 2);
+        if which == "syn-burst" {
+            let n = if thorough { 70_000u32 } else { 12_500 };
+            let mut steps = vec![Step::Mono(1_000)];
+            for i in 0..n {
+                if i % 500 == 0 {
+                    // the whole burst fits in well under a second of the node's clocks
+                    steps.push(Step::Mono(1_000 + (i as u64 / 500) * 4_000));
+                }
+                let sport = 1024 + (i % 60_000) as u16;
+                let dport = *rng.pick(&[80u16, 443, 22, 8080, 445]);
+                let fl = if v6 { Flow::v6(sport, dport) } else { Flow::v4(sport, dport) };
+                let fl_flags = if i % 97 == 0 { F_SYN | F_ECE } else { F_SYN };
+                steps.push(Step::Frame(fl.seg(rng.u32(), 0, fl_flags, &[])));
+            }
+            // and the connections still work afterwards
+            let fl = if v6 { Flow::v6(1024, 80) } else { Flow::v4(1024, 80) };
+            let ck = fl.cookie(&key);
+            steps.push(Step::Frame(fl.seg(10, 0, F_SYN, &[])));
+            steps.push(Step::Frame(fl.seg(11, ck.wrapping_add(1), F_PSH | F_ACK, b"GET / HTTP/1.1\r\n\r\n")));
+            out.push(Scenario {
+                name: format!("syn-burst-{}-{}", if v6 { "v6" } else { "v4" }, build.as_str()),
+                cfg: cfg(build, LoggerKind::None, 0, key),
+                start_ms: START,
+                steps,
+                samples: 0,
+            });
+        } else {
+            let n = if thorough { 5_000u32 } else { 1_300 };
+            let fl = if v6 { Flow::v6(40_000, 80) } else { Flow::v4(40_000, 8080) };
+            let ck = fl.cookie(&key);
+            let mut steps = vec![Step::Frame(fl.seg(100, 0, F_SYN, &[]))];
+            let mut seq = 101u32;
+            for i in 0..n {
+                let m = *rng.pick(&["GET", "HEAD", "POST", "OPTIONS", "DELETE"]);
+                let req = format!("{} /item/{} HTTP/1.1\r\nHost: example.test\r\nUser-Agent: crawler/1.0\r\n\r\n", m, i);
+                steps.push(Step::Frame(fl.seg(seq, ck.wrapping_add(1), F_PSH | F_ACK, req.as_bytes())));
+                seq = seq.wrapping_add(req.len() as u32);
+                if i % 100 == 99 {
+                    steps.push(Step::Mono(1_000 + i as u64 * 20_000));
+                }
+            }
+            out.push(Scenario {
+                name: format!("keepalive-{}-{}-{}", n, if v6 { "v6" } else { "v4" }, build.as_str()),
+                cfg: cfg(build, LoggerKind::None, 0, key),
+                start_ms: START,
+                steps,
+                samples: 0,
+            });
+        }
+    }
+    out
+}
+
 pub fn scenarios(prop: &str, tier: &str, seed: u64) -> Vec<Scenario> {
     let thorough = tier == "thorough";
     match prop {
@@ -1024,7 +1087,13 @@ pub fn scenarios(prop: &str, tier: &str, seed: u64) -> Vec<Scenario> {
             v.extend(sc_flags(seed, false).into_iter().filter(|s| s.name == "edge-cookies"));
             v
         }
-        "C06" | "C07" | "C09" => sc_flags(seed, thorough),
+        "C06" => {
+            let mut v = sc_flags(seed, thorough);
+            v.extend(sc_scale(seed, thorough, "syn-burst"));
+            v
+        }
+        "C13" => sc_scale(seed, thorough, "keepalive"),
+        "C07" | "C09" => sc_flags(seed, thorough),
         "C03" => {
             let mut v = sc_flags(seed, false);
             v.extend(sc_c15(seed, false));
